@@ -36,6 +36,8 @@ func (l *Lit) gallina() string {
 		return "(Some (LInt " + lib.GZ(l.I) + "))"
 	case "bool":
 		return "(Some (LBool " + lib.GBool(l.B) + "))"
+	case "float":
+		return "(Some (LFloat " + gBits(l.F) + "))"
 	default:
 		return "(Some (LStr " + lib.GStr(l.S) + "))"
 	}
